@@ -59,7 +59,9 @@ type step struct {
 	Ctx   string // absent | json | binary | invalid
 }
 
-func (s step) String() string { return fmt.Sprintf("%s(ev=%s,resp=%s,ctx=%s)", s.Kind, s.Event, s.Resp, s.Ctx) }
+func (s step) String() string {
+	return fmt.Sprintf("%s(ev=%s,resp=%s,ctx=%s)", s.Kind, s.Event, s.Resp, s.Ctx)
+}
 
 type history []step
 
